@@ -1,13 +1,37 @@
 (* C01 — load/save round trip at the block level, on the SyncIR programs GENERATED from /repo. *)
-From NiflyVerif Require Import IR Exec IREq Total IRCur.
+From NiflyVerif Require Import IR Exec IREq Refs RtDefs RtProofs Total Versions IRCur.
 Local Open Scope N_scope.
 
-(* Every block type whose generated program passes the totality check is read (and written) without
-   fault for every version triple, every header-string oracle and every input: the model's get and put
-   are total functions on those types, so the round-trip statements below never hold vacuously. *)
-Theorem C01_codecs_total : forall i b m v hs st,
-  In (i, b) IRCur.block_table -> block_total b = true -> exists st', exec m v hs (snd b) st = Ok st'.
-Proof.
-  intros i b m v hs st _ H. apply andb_prop in H. destruct H as [_ H]. exact (exec_total m v hs (snd b) st H).
-Qed.
-Print Assumptions C01_codecs_total.
+(* The static round-trip discipline is sound, for ALL programs of the IR, all version triples, all
+   header-string oracles: a program accepted by [chk] from the agreed set A, run in write mode on any
+   state, then in read mode on any state that agrees on A and holds the produced bytes (followed by
+   anything), consumes exactly those bytes without fault and ends agreeing on the resulting set. *)
+Theorem C01_chk_sound : forall v hs s A A', chk v s A = Some A' -> rt_ok v hs s A A'.
+Proof. exact chk_sound. Qed.
+Print Assumptions C01_chk_sound.
+
+(* Per block type and version (obligation [chk_block], discharged by computation on the regenerated
+   model): whatever object is written, a freshly constructed object reads the bytes back exactly. *)
+Theorem C01_block_round_trip : forall v hs b,
+  chk_block v b = true ->
+  forall obj sw', exec Wr v hs (block_prog b) obj = Ok sw' ->
+  exists bytes A', out sw' = rev bytes ++ out obj /\
+    forall rest, exists sr', exec Rd v hs (block_prog b) (empty_state (bytes ++ rest)) = Ok sr' /\
+                             inp sr' = rest /\ eof sr' = false /\ agree A' sw' sr'.
+Proof. exact block_round_trip. Qed.
+Print Assumptions C01_block_round_trip.
+
+(* the block types for which the obligation is discharged for ALL supported version triples,
+   and the per-version counts *)
+Definition C01_proved_ids : list N :=
+  map fst (filter (fun x => forallb (fun v => chk_block v (snd x)) supported_versions) IRCur.block_table).
+Eval vm_compute in C01_proved_ids.
+Definition C01_proved_per_version : list nat :=
+  map (fun v => length (filter (fun x => chk_block v (snd x)) IRCur.block_table)) supported_versions.
+Eval vm_compute in C01_proved_per_version.
+
+(* non-vacuity: a count that is used before it is transferred is rejected; the accepted order passes *)
+Example C01_check_discriminates :
+  chk (mkVer 0 0 0) (SSeq (SFor 1 (ELoad 5 []) (SSync 6 [ILocal 1] (PInt false 2))) (SSync 5 [] (PInt false 4))) [] = None /\
+  exists A', chk (mkVer 0 0 0) (SSeq (SSync 5 [] (PInt false 4)) (SFor 1 (ELoad 5 []) (SSync 6 [ILocal 1] (PInt false 2)))) [] = Some A'.
+Proof. split; [reflexivity|eexists; reflexivity]. Qed.
